@@ -662,6 +662,91 @@ func c18Context(c *Ctx) {
 		c.ob("C18-R8", fmtPkg+"#rewriters-do-not-re-encode", token.NoPos, n > 100, "pkg/formatter has fewer than 100 instructions: not loaded")
 	}
 
+	// ---- R9 what expansion rewrites at the start of a line, compaction rewrites back at the start of a line
+	c.rule("C18-R9", "SIB: expansion replaces a symbol wherever nothing but white space precedes it on its line, at any nesting depth; so the two context predicates of the formatter (the one for symbols and the one for keywords) answer true whenever the text before the token on its line is empty - no further condition (nesting depth, previous token) narrows the line-start case in either direction. Otherwise a symbol expanded inside a block (`:key = value`, a `!a` list element on its own line) is not compacted back and expand -> compact no longer parses")
+	{
+		n := 0
+		for _, fn := range c.srcFuncs(fmtPkg) {
+			if fn.Signature.Results().Len() != 1 {
+				continue
+			}
+			if bt, ok := fn.Signature.Results().At(0).Type().Underlying().(*types.Basic); !ok || bt.Kind() != types.Bool {
+				continue
+			}
+			// the line-start tests: comparisons of a trimmed text with ""
+			var cmps []*ssa.BinOp
+			eachInstr(fn, func(_ *ssa.BasicBlock, _ int, ins ssa.Instruction) {
+				bo, ok := ins.(*ssa.BinOp)
+				if !ok || bo.Op != token.EQL {
+					return
+				}
+				for _, pr := range [][2]ssa.Value{{bo.X, bo.Y}, {bo.Y, bo.X}} {
+					if sv, ok := constString(pr[1]); ok && sv == "" && derivesFrom(pr[0], func(v ssa.Value) bool {
+						cl, ok := v.(*ssa.Call)
+						if !ok {
+							return false
+						}
+						if callName(cl) == "strings.TrimSpace" {
+							return true
+						}
+						// a helper of the package that computes the text before the token on its line
+						if sf := staticFn(cl); sf != nil && sf.Pkg == fn.Pkg {
+							return reachesInstr(sf, func(x ssa.Instruction) bool { return isCallTo(x, "strings.TrimSpace") }, 0, map[*ssa.Function]bool{})
+						}
+						return false
+					}) {
+						cmps = append(cmps, bo)
+					}
+				}
+			})
+			if len(cmps) == 0 {
+				continue
+			}
+			k := 0
+			for _, cmp := range cmps {
+				// every return the comparison's value (or its true edge) reaches must be true when the comparison is
+				var trueGiven func(v ssa.Value, at *ssa.BasicBlock, d int) bool
+				trueGiven = func(v ssa.Value, at *ssa.BasicBlock, d int) bool {
+					if d > 6 {
+						return false
+					}
+					if v == ssa.Value(cmp) || isConstBool(v, true) {
+						return true
+					}
+					if ph, ok := v.(*ssa.Phi); ok {
+						for idx, e := range ph.Edges {
+							pred := ph.Block().Preds[idx]
+							// an edge that can only be taken when the comparison is false does not matter
+							if !reachableWhenTrue(fn, cmp, pred) {
+								continue
+							}
+							if !trueGiven(e, pred, d+1) {
+								return false
+							}
+						}
+						return true
+					}
+					return false
+				}
+				eachInstr(fn, func(_ *ssa.BasicBlock, _ int, ins ssa.Instruction) {
+					r, ok := ins.(*ssa.Return)
+					if !ok || !reachableWhenTrue(fn, cmp, r.Block()) {
+						return
+					}
+					// only returns that lie behind the comparison (dominated by its block)
+					if !cmp.Block().Dominates(r.Block()) {
+						return
+					}
+					n++
+					k++
+					c.ob("C18-R9", fnKey(fn)+"#line-start-is-enough-"+itoa(k), r.Pos(), trueGiven(retVals(r)[0], r.Block(), 0), "with nothing but white space before the token on its line this predicate can still answer false (a further condition such as the nesting depth is and-ed to the line-start test): a symbol that expansion replaced at the start of a line inside a block is not replaced back by compaction, and the round trip no longer parses")
+				})
+			}
+		}
+		c.Sites["C18-R9#line-start-returns"] = n
+		c.floor("C18-R9", 2)
+	}
+
 	c.rule("C18-R6", "CTX: every expanded keyword (a value of symbolToKeyword) that the compact lexer lexes as a plain identifier is turned into its symbol token by ExpandedLexer.readIdentifier only under a test of the lexer's context (previous token / statement start), not for every occurrence of the word: `input.type`, `/cron/status`, an object key `type:` or a variable named `queue` are identifiers in the compact source, so an expanded text that contains them must still lex them as identifiers, or expand() of a valid program does not parse back to the same tree")
 	s2k, _ := stringMapLiteral(c, fmtPkg, "symbolToKeyword")
 	if len(s2k) == 0 {
@@ -802,4 +887,36 @@ func flowsToOutput(v ssa.Value) bool {
 		return false
 	}
 	return walk(v, 0)
+}
+
+// reachableWhenTrue: block b can be entered on an execution in which comparison cmp was true (b is reachable from the
+// true successor of the branch on cmp, or cmp is not branched on before b).
+func reachableWhenTrue(fn *ssa.Function, cmp *ssa.BinOp, b *ssa.BasicBlock) bool {
+	var branch *ssa.BasicBlock
+	for _, blk := range fn.Blocks {
+		if iff := ifOf(blk); iff != nil && iff.Cond == ssa.Value(cmp) {
+			branch = blk
+		}
+	}
+	if branch == nil {
+		return true
+	}
+	if b == branch {
+		return true
+	}
+	seen := map[*ssa.BasicBlock]bool{}
+	stack := []*ssa.BasicBlock{branch.Succs[0]}
+	for len(stack) > 0 {
+		x := stack[len(stack)-1]
+		stack = stack[:len(stack)-1]
+		if seen[x] {
+			continue
+		}
+		seen[x] = true
+		if x == b {
+			return true
+		}
+		stack = append(stack, x.Succs...)
+	}
+	return false
 }
